@@ -500,6 +500,30 @@ theorem factory_excl (ps : List (List Char)) (d : Option Mol) (split : Bool)
       have := template_abs c k m
       exact ⟨template_excl hex k m, this.2.1, this.2.2, rfl⟩
 
+theorem factory_templates (ps : List (List Char)) (d : Option Mol) (split : Bool)
+    (sigs : List (List BT)) (h : factory ps d split = .ok sigs) :
+    ∀ sig ∈ sigs, ∀ b ∈ sig, ∃ c k m, CPExcl c ∧ b = template c k m := by
+  unfold factory at h
+  cases hi : factoryInit ps d with
+  | error e => rw [hi] at h; cases h
+  | ok pl =>
+    rw [hi] at h
+    simp only [] at h
+    cases hm : mapM' (computeParamsOf split) pl with
+    | error e => rw [hm] at h; cases h
+    | ok cps =>
+      rw [hm] at h
+      simp only [Except.ok.injEq] at h
+      subst h
+      intro sig hsig b hb
+      simp only [List.mem_map] at hsig
+      obtain ⟨c, hc, rfl⟩ := hsig
+      obtain ⟨cs, hcs, hcc⟩ := List.mem_flatten.1 hc
+      obtain ⟨mp, hmp, hf⟩ := mapM'_mem hm cs hcs
+      have hex : CPExcl c := computeParamsOf_excl ((factoryInit_NS hi).2 mp hmp) hf c hcc
+      obtain ⟨k, _, m, _, rfl⟩ := (mem_buildTemplate c b).1 hb
+      exact ⟨c, k, m, hex, rfl⟩
+
 /-! ### factory = direct -/
 
 theorem factory_direct (p : CP) (k : Nat) (m : Mol) (hs : List Nat)
